@@ -417,7 +417,7 @@ class Differ:
                     next_path, lele, rele,
                     lhs_parent=lhs, lhs_iteration=idx,
                     rhs_parent=rhs, rhs_iteration=idx,
-                    parentref=idx)
+                    parentref=idx - 1)
             else:
                 self._diffs.append(
                     DiffEntry(
